@@ -1,6 +1,8 @@
 //! Entry point: `verif <cNN> [--tier quick|thorough] [--replay file]`.
 mod checks;
 mod ctx;
+mod dev;
+mod explore;
 mod refcodec;
 mod refcrypto;
 mod talloc;
